@@ -105,7 +105,11 @@ class ShardState:
             self.last_violation = (case, v)
             return v
         for lab in set(labels):
-            self.labels[lab] += 1
+            if isinstance(lab, str) and lab.startswith("n:"):
+                _, name, num = lab.split(":", 2)   # numeric label: summed, e.g. "n:pairs:3905"
+                self.labels["n:" + name] += int(num)
+            else:
+                self.labels[lab] += 1
         if self.mod.nontrivial(labels):
             if isinstance(case, dict) and case.get("enum"):
                 self.enum_nontrivial += 1
